@@ -427,4 +427,16 @@ example : wireLinksOK exSkipRep = false := by decide +kernel
 example : (decodeSubset exSkipRep (zeros' 60)).toOption.isSome = true ∧
     linkStatement exSkipRep (zeros' 60) = false := by decide +kernel
 
+/-- non-vacuity of `C09_decode_links_owner_eq_spec_partial`: a template that is in `wireLinksOK` AND `Spec.WFlinks`, whose
+    decoded items are `markersOk` (222000 236000 + quality values, 224000 237000 008023 + two 224255) -/
+def exW : List Desc :=
+  [.elem (exE 12001 12), .elem (exE 12002 12), .op 222000, .op 236000, .fixedRep 101002 [.elem exB],
+   .fixedRep 101002 [.elem exQ33], .op 224000, .op 237000, .elem (exM 8023), .fixedRep 101002 [.op 224255]]
+
+example : wireLinksOK exW = true := by decide +kernel
+example : Spec.WFlinks exW := by decide +kernel
+example : ((decodeSubset exW (zeros' 200)).toOption.map fun r => Spec.markersOk (r.1.descs.zip r.1.vals)) = some true := by
+  decide +kernel
+example : linkStatement exW (zeros' 200) = true := by decide +kernel
+
 end Bufr
